@@ -405,3 +405,25 @@ func ZZ_C06_SubTreeLayout() {
 	zzsym.Assert(getStoredHashNum(n) == int64(2*n)-int64(zzPopCount(n)), "stored hashes for n leaves = 2n - popcount(n)")
 	zzsym.Cover("layout-done")
 }
+
+// Block-inclusion paths served to relayers (MerkleInclusionLeafPath) for tree sizes whose right-hand
+// side folds three or more subtree roots (15, 23, 27, 29, 30, 31 ...): the path for leaf m of the
+// size-n tree must verify with MerkleProve against root(n) and yield the leaf. Sizes are enumerated
+// from a list, leaves are symbolic.
+var zzFoldSizes = []int{15, 16, 23, 27, 31}
+
+func ZZ_C06_LeafPathManySubtrees() {
+	S := zzsym.Param("S") // how many of the sizes above
+	n := zzFoldSizes[zzsym.Choose("size", S)]
+	leaves := zzLeaves(n)
+	tree := zzBuild(leaves, false)
+	m := zzsym.Choose("m", 4) * (n / 4) // leaves 0, n/4, n/2, 3n/4
+	path, err := tree.MerkleInclusionLeafPath(leaves[m], uint32(m), uint32(n))
+	zzsym.Assert(err == nil, "a leaf path exists for every leaf of the tree")
+	if err == nil {
+		root := zzMTH(leaves)
+		v, e := MerkleProve(path, root[:])
+		zzsym.Assert(e == nil && bytes.Equal(v, leaves[m]), "the served leaf path verifies against the tree root and yields the leaf")
+	}
+	zzsym.Cover("leafpath-many-subtrees")
+}
